@@ -150,7 +150,7 @@ def _judge(ctx, prop, name, paths, parallel, timeout):
             inputs[(c.get("leg", ""), c["id"])] = c
     seen = set()
     for m in mism[:3]:
-        att = m["case_events"][0]
+        att = next((x for x in m["case_events"] if x.get("k") == "attach"), m["case_events"][0])
         rep = inputs.get((att.get("leg", ""), att.get("id")))
         ev = m["case_events"][m["line_in_case"] - 1]
         key = json.dumps(m["mismatch"][1:])
